@@ -56,13 +56,17 @@ Lemma castle_km_squares b kingside :
 Proof. unfold castle_km. destruct (stm b), kingside; reflexivity. Qed.
 
 Theorem from_san_castle_kingside b mk : In mk marks ->
-  from_san b (O_O ++ mk) = if legal b (castle_km b true) then Ok (castle_km b true) else Err.
+  from_san b (O_O ++ mk) =
+  if piece_opt_eqb (piece_on b (msrc (castle_km b true))) King && legal b (castle_km b true)
+  then Ok (castle_km b true) else Err.
 Proof.
   intro H. rewrite from_san_scan. unfold legal, legal_in.
   cbn [In marks] in H. destruct H as [<-|[<-|[<-|[]]]]; reflexivity.
 Qed.
 Theorem from_san_castle_queenside b mk : In mk marks ->
-  from_san b (O_O_O ++ mk) = if legal b (castle_km b false) then Ok (castle_km b false) else Err.
+  from_san b (O_O_O ++ mk) =
+  if piece_opt_eqb (piece_on b (msrc (castle_km b false))) King && legal b (castle_km b false)
+  then Ok (castle_km b false) else Err.
 Proof.
   intro H. rewrite from_san_scan. unfold legal, legal_in.
   cbn [In marks] in H. destruct H as [<-|[<-|[<-|[]]]]; reflexivity.
@@ -170,6 +174,8 @@ Definition board_of_fen (s:string) : board := match board_from_str (txt s) with 
 Definition b_ep : board := board_of_fen "rnbqkbnr/1pp1pppp/p7/3pP3/8/8/PPPP1PPP/RNBQKBNR w KQkq d6 0 3".
 Definition b_castle : board := board_of_fen "r3k2r/pppppppp/8/8/8/8/PPPPPPPP/R3K2R w KQkq - 0 1".
 Definition b_castle_black : board := board_of_fen "r3k2r/pppppppp/8/8/8/8/PPPPPPPP/R3K2R b KQkq - 0 1".
+(** white K b2, R e1, black K h8: the rook moves e1g1 / e1c1 are legal, castling is not *)
+Definition b_rook_e1 : board := board_of_fen "7k/8/8/8/8/8/1K6/4R3 w - - 0 1".
 Definition b_knights : board := board_of_fen "4k3/8/8/8/8/8/8/1N2KN2 w - - 0 1".
 Definition cmv (s d:N) : cmove := {| msrc := s; mdst := d; mpromo := None |}.
 
@@ -204,6 +210,19 @@ Example san_OO : from_san b_castle (txt "O-O") = Ok (cmv 4 6). Proof. vm_compute
 Example san_OOO_plus : from_san b_castle (txt "O-O-O+") = Ok (cmv 4 2). Proof. vm_compute. reflexivity. Qed.
 Example san_OO_black : from_san b_castle_black (txt "O-O#") = Ok (cmv 60 62). Proof. vm_compute. reflexivity. Qed.
 Example san_OOO_black : from_san b_castle_black (txt "O-O-O") = Ok (cmv 60 58). Proof. vm_compute. reflexivity. Qed.
+(** "O-O" / "O-O-O" are never answered with a rook move from e1 (library fix) *)
+Example rook_e1_moves_legal :
+  legal b_rook_e1 (cmv 4 6) = true /\ legal b_rook_e1 (cmv 4 2) = true
+  /\ piece_on b_rook_e1 4 = Some Rook /\ castle_km b_rook_e1 true = cmv 4 6 /\ castle_km b_rook_e1 false = cmv 4 2.
+Proof. repeat split; vm_compute; reflexivity. Qed.
+Example san_OO_rook_e1 : from_san b_rook_e1 (txt "O-O") = Err. Proof. vm_compute. reflexivity. Qed.
+Example san_OOO_rook_e1 : from_san b_rook_e1 (txt "O-O-O") = Err. Proof. vm_compute. reflexivity. Qed.
+Example san_OO_plus_rook_e1 : from_san b_rook_e1 (txt "O-O+") = Err. Proof. vm_compute. reflexivity. Qed.
+Example san_Rg1_rook_e1 : from_san b_rook_e1 (txt "Rg1") = Ok (cmv 4 6). Proof. vm_compute. reflexivity. Qed.
+(** the castling theorem's test is satisfiable: real castling *)
+Example castle_hyp :
+  piece_opt_eqb (piece_on b_castle (msrc (castle_km b_castle true))) King && legal b_castle (castle_km b_castle true) = true.
+Proof. vm_compute. reflexivity. Qed.
 (** ambiguity: knights on b1 and f1 both reach d2 *)
 Example san_Nd2_ambiguous : from_san b_knights (txt "Nd2") = Err. Proof. vm_compute. reflexivity. Qed.
 Example san_Nbd2 : from_san b_knights (txt "Nbd2") = Ok (cmv 1 11). Proof. vm_compute. reflexivity. Qed.
